@@ -38,7 +38,8 @@ RULE = ('(rows, n) pairs: every pair with rows <= 2000 (quick tier: rows <= 800 
         'for which floor(rows/n*k) != rows*k//n for some k (4414 pairs, 3949 of them at k = n), a seeded sample of such pairs for rows up to 20 000, a uniform seeded '
         'sample over rows 1..20000 x n 1..64, friendly pairs (n | rows, powers of two, n > rows, rows = 1); each pair '
         'is driven through all n bands on a plain 2-D float32 file, and subsets through 3-D/4-D cubes at every cube '
-        'index, an image extension (hdu_index=1), int16/int32 files, BSCALE on float32 and on integer data, and '
+        'index, an image extension (hdu_index=1), int16/int32 files, storage wider than float32 (BITPIX -64 with x.1 values, BITPIX 32 '
+        'odd counts above 2**24, the same with a non-dyadic BSCALE), BSCALE on float32 and on integer data, and '
         'BANE-compressed files (real fits_tools.compress output, factors 1..64 with every fifth file at factor 1 and the next '
         'at a factor larger than the image; also carrying BSCALE the way BANE --compress writes them); headers vary projection, CDELT/CD form and sign, '
         'CRPIX (integer, fractional, off-image).  One evaluation = one load_image_band call whose result was '
@@ -52,12 +53,14 @@ MIN_REACH = {'fits_tools:load_image_band': 1, 'fits_tools:expand': 1}
 MIN_COUNTERS = {
     'quick': {'band_loads': 60000, 'pairs_judged': 2500, 'pairs_edge_last': 1500, 'pairs_edge_interior_only': 150,
               'pairs_friendly': 100, 'astrometry_judged': 50000, 'form_3d': 500, 'form_4d': 500,
-              'form_compressed': 500, 'form_compressed_bscale': 500, 'compressed_files_factor_1': 15,
+              'form_compressed': 500, 'form_compressed_bscale': 500, 'form_f64': 500, 'form_int_big': 500,
+              'form_bscale_i32': 500, 'scaled_full_checked_float64': 20, 'compressed_files_factor_1': 15,
               'compressed_files_factor_gt_size': 3, 'compressed_files_factor_gt_columns': 30, 'compressed_bscale_full_checked': 20, 'form_bscale_f32': 500, 'form_bscale_int': 500, 'invalid_specs': 50,
               'noninteger_specs': 300, 'numpy_integer_specs': 40},
     'thorough': {'band_loads': 250000, 'pairs_judged': 9000, 'pairs_edge_last': 5000,
                  'pairs_edge_interior_only': 500, 'pairs_friendly': 100, 'astrometry_judged': 200000,
-                 'form_3d': 3000, 'form_4d': 3000, 'form_compressed': 3000, 'form_compressed_bscale': 2000, 'compressed_files_factor_1': 60,
+                 'form_3d': 3000, 'form_4d': 3000, 'form_compressed': 3000, 'form_compressed_bscale': 2000, 'form_f64': 2000, 'form_int_big': 2000,
+                 'form_bscale_i32': 2000, 'scaled_full_checked_float64': 80, 'compressed_files_factor_1': 60,
                  'compressed_files_factor_gt_size': 10, 'compressed_files_factor_gt_columns': 100, 'compressed_bscale_full_checked': 80, 'form_bscale_f32': 3000,
                  'form_bscale_int': 3000, 'invalid_specs': 200, 'noninteger_specs': 300, 'numpy_integer_specs': 40},
 }
@@ -83,7 +86,8 @@ def edge_pairs(rows_list):
     return out
 
 
-FORMS = ('2d', '3d', '4d', 'ext1', 'int', 'bscale_f32', 'bscale_int', 'compressed', 'compressed_bscale')
+FORMS = ('2d', '3d', '4d', 'ext1', 'int', 'bscale_f32', 'bscale_int', 'compressed', 'compressed_bscale',
+         'f64', 'int_big', 'bscale_i32')          # the last three: storage wider than float32
 COMPRESSED = ('compressed', 'compressed_bscale')
 
 
@@ -114,6 +118,7 @@ def cases(seed, tier):
     keys = sorted(ep)
     small = [k for k in keys if 2 <= k[0] <= 700]          # compress needs at least 2 rows (C15's domain)
     for form, pool, cnt in (('3d', keys, 100), ('4d', keys, 100), ('ext1', keys, 40), ('int', keys, 40),
+                            ('f64', keys, 40), ('int_big', keys, 40), ('bscale_i32', keys, 40),
                             ('bscale_f32', keys, 100), ('bscale_int', keys, 100), ('compressed', small, 100),
                             ('compressed_bscale', small, 60)):
         cnt = cnt if quick else cnt * 5
@@ -129,7 +134,8 @@ def cases(seed, tier):
         for n in rng.choice(ns, size=min(len(ns), 2), replace=False):
             add('2d', rows, int(n), 'edge_' + epb[(rows, int(n))])
     # uniform sample
-    for form, cnt in (('2d', 250), ('3d', 40), ('4d', 40), ('ext1', 20), ('int', 20), ('bscale_f32', 40),
+    for form, cnt in (('2d', 250), ('3d', 40), ('4d', 40), ('ext1', 20), ('int', 20), ('f64', 20), ('int_big', 20),
+                      ('bscale_i32', 20), ('bscale_f32', 40),
                       ('bscale_int', 40), ('compressed', 60), ('compressed_bscale', 40)):
         cnt = cnt if quick else cnt * 10
         for _ in range(cnt):
@@ -169,7 +175,8 @@ def cases(seed, tier):
     for c in out:
         per.setdefault(c['form'], []).append(c)
     mixed = []
-    order = ('compressed', 'bscale_int', 'compressed_bscale', '2d', '3d', '4d', 'ext1', 'int', 'bscale_f32')
+    order = ('compressed', 'bscale_int', 'compressed_bscale', '2d', 'f64', 'int_big', 'bscale_i32', '3d', '4d', 'ext1', 'int',
+             'bscale_f32')
     while any(per.values()):
         for form in order:
             if per.get(form):
@@ -210,7 +217,17 @@ def build_file(form, rows, rng, tmp, ft, k=None):
     path = os.path.join(tmp, 'f.fits')
     bscale = None
     hdu_index = 0
-    if form in ('int', 'bscale_int'):
+    stored = None
+    if form == 'f64':
+        # BITPIX -64 with values that float32 cannot hold (x.1, ~1e-8 relative from the nearest float32)
+        data = vals[0].astype(np.float64) + 0.1
+        stored = data
+    elif form in ('int_big', 'bscale_i32'):
+        # BITPIX 32 counts above 2**24, all odd: none of them is a float32 number
+        data = (vals[0] * 2 + (2 ** 24 + 1)).astype(np.int32)
+        info['dtype'] = 'int32'
+        stored = data
+    elif form in ('int', 'bscale_int'):
         dt = np.int16 if vals.max() <= 32767 else np.int32
         info['dtype'] = np.dtype(dt).name
         data = vals[0].astype(dt)
@@ -229,8 +246,9 @@ def build_file(form, rows, rng, tmp, ft, k=None):
         hdu_index = 1
     else:
         fits.PrimaryHDU(data, header=h).writeto(path, overwrite=True)
-    if form in ('bscale_f32', 'bscale_int'):
-        bscale = float(rng.choice([0.5, 0.1, 3.0, -2.0, 0.25]))
+    if form in ('bscale_f32', 'bscale_int', 'bscale_i32'):
+        bscale = float(rng.choice([0.5, 0.1, 3.0, -2.0, 0.25])) if form != 'bscale_i32' else \
+            float(rng.choice([0.0123, 0.1, 1e-3, 7.0 / 3.0, -0.0123]))          # not dyadic
         info['bscale'] = bscale
         with fits.open(path, mode='update', do_not_scale_image_data=True) as hl:
             hl[0].header['BSCALE'] = bscale
@@ -270,14 +288,14 @@ def build_file(form, rows, rng, tmp, ft, k=None):
                         not np.array_equal(hl[0].data[:-1, :-1], data[::f, ::f]):
                     raise RuntimeError('harness: could not produce a compressed file that carries BSCALE')
         path = cpath
-    return {'path': path, 'hdu_index': hdu_index, 'cube_index': ci, 'ncols': ncols, 'raw2d': vals[ci],
+    return {'path': path, 'hdu_index': hdu_index, 'cube_index': ci, 'ncols': ncols, 'raw2d': vals[ci] if stored is None else stored,
             'bscale': bscale, 'info': info, 'm': m}
 
 
 def full_image(o, ft, fb, form):
     """(full 2-D array, full header) or None (after recording why)"""
     from astropy.io import fits
-    if form in ('2d', '3d', '4d', 'ext1', 'int'):
+    if form in ('2d', '3d', '4d', 'ext1', 'int', 'f64', 'int_big'):
         d = fits.getdata(fb['path'], ext=fb['hdu_index'])
         h = fits.getheader(fb['path'], ext=fb['hdu_index'])
         if form == '3d':
@@ -304,8 +322,15 @@ def full_image(o, ft, fb, form):
             return None
     if form.startswith('bscale'):
         want = fb['raw2d'].astype(np.float64) * fb['bscale']
-        ok = d.shape == want.shape and np.allclose(d, want, rtol=1e-6, atol=0)
+        # float32 / int16 storage: float32 results are legitimate (astropy itself reads them as float32).  BITPIX 32 with
+        # BSCALE is read by astropy as float64 = raw * BSCALE: the full image must be that to float64 rounding
+        wide = form == 'bscale_i32'
+        ok = d.shape == want.shape and np.allclose(d, want, rtol=1e-14 if wide else 1e-6, atol=0)
         o.count('scaled_full_checked')
+        if wide:
+            o.count('scaled_full_checked_float64')
+            if d.shape == want.shape:
+                o.worst('scaled_int32_vs_raw_times_bscale_rel', float(np.max(np.abs(d - want) / np.abs(want))))
         if not ok:
             o.violate('scaled_values', dict(fb['info'], got_first=np.ravel(d)[:3].tolist(),
                                             want_first=np.ravel(want)[:3].tolist()))
